@@ -145,6 +145,8 @@ pub fn run_check(ctx: &Ctx) -> i32 {
         sweep(ctx, "F<=3 x 4 configs x L0,L1,LB", Space::Frags { k, max: 3 }, &small, l1);
         sweep(ctx, "B16<=4 x 6 configs x L0,L1,L2,LB,LE", Space::Bytes { max: 4 }, &[small, small_ns].into_iter().flatten().collect::<Vec<_>>(), l12);
         sweep(ctx, "F<=2 x 3 encodings x 3 configs x L0,L1,L2,LB,LE", Space::Frags { k, max: 2 }, &enc_cfgs, l12);
+        let all36: Vec<Prepared> = all_encodings().iter().flat_map(|e| prep(&menu, &["doc-text", "everything"], &[false], e.name())).collect();
+        sweep(ctx, "F<=2 x all 36 encodings x {doc-text, everything} x L0,L1,LB", Space::Frags { k, max: 2 }, &all36, l1);
     } else {
         let l_all = Levels { l1: true, l2_max_len: 40, bytewise: true, empties: true };
         sweep(ctx, "F<=3 x full menu x strict{t,f} x L0,L1,L2,LB,LE", Space::Frags { k, max: 3 }, &full, l_all);
@@ -154,6 +156,8 @@ pub fn run_check(ctx: &Ctx) -> i32 {
         sweep(ctx, "B16<=5 x 6 configs x L0,L1,L2,LB,LE", Space::Bytes { max: 5 }, &b, l_all);
         sweep(ctx, "B16<=6 x 6 configs x L0,L1,LB", Space::Bytes { max: 6 }, &b, l1);
         sweep(ctx, "F<=3 x 3 encodings x 3 configs x L0,L1,L2,LB,LE", Space::Frags { k, max: 3 }, &enc_cfgs, l_all);
+        let all36: Vec<Prepared> = all_encodings().iter().flat_map(|e| prep(&menu, &["doc-text", "everything"], &[false], e.name())).collect();
+        sweep(ctx, "F<=2 x all 36 encodings x {doc-text, everything} x L0,L1,L2,LB,LE", Space::Frags { k, max: 2 }, &all36, l_all);
     }
     ctx.finish(
         "model_checking",
